@@ -85,6 +85,8 @@ def run(ctx):
     ctx.rule("R18.g", "an iterable argument that feeds both stores is materialised first (extend; slice assignment): an iterator would be exhausted by the first store", floor=2)
     ctx.rule("R18.h", "names entries are removed only by the removers (pop, remove, clear): __setitem__ / update overwrite a key in place, so a re-assigned key keeps its position "
                       "(names order = list order)", floor=2)
+    ctx.rule("R18.i", "the notification of a mutation carries the state after it: in ListProxy._trigger the old value is a copy taken before the yield, and the new value handed to "
+                      "_trigger_event is read from the Parameter after the yield (a mutator may rebind names/_objects, so a container reference taken before the yield is stale)", floor=1)
     ctx.rule("R18.f", "outside ListProxy and the objects setter, _objects grows only in Selector._ensure_value_is_in_objects, which tests membership against the current objects for every single value", floor=1)
     ctx.not_decided += ["consistency after arbitrary mutation sequences (follows from per-mutator pairing but is not executed)",
                         "list mutators that ListProxy does not override (sort, reverse, __delitem__, +=) -- reported as informational"]
@@ -346,3 +348,63 @@ def _rule_g(ctx):
                                             "so _objects receives nothing (or, for a slice, loses the replaced elements)" % (m, val),
                      key="%s::iterable-consumed-twice" % f.qualname,
                      input="Selector(objects=[1,2,3]).objects[0:2] = iter([7,8]) -> objects == [3]; objects.extend(x for x in [3,4]) changes nothing")
+
+    # ---------------------------------------------------------------- R18.i
+    tg = ctx.repo.method(LP if "LP" in globals() else "param.parameters.ListProxy", "_trigger")
+    tcfg = ctx.facts.cfg(tg)
+    ys = [n for n in tcfg.live_nodes() if n.suspend]
+    ctx.require(ys, "ListProxy._trigger no longer yields")
+    evs = [(n, c) for n in tcfg.live_nodes() for c in calls_in(n) if isinstance(c.func, ast.Attribute) and c.func.attr == "_trigger_event" and len(c.args) >= 3]
+    ctx.require(evs, "ListProxy._trigger no longer calls _trigger_event(what, old, new)")
+    MUTABLE_SLOTS = {"names", "_objects", "objects"}
+    # slots that some ListProxy method REBINDS (a reference taken earlier then denotes the old container)
+    rebound = set()
+    for g in [x for fs in ctx.repo.cls(LP).methods.values() for x in fs]:
+        for st in ast.walk(g.node):
+            if isinstance(st, (ast.Assign, ast.AugAssign)):
+                for t in (st.targets if isinstance(st, ast.Assign) else [st.target]):
+                    if isinstance(t, ast.Attribute) and "_parameter" in norm(t.value):
+                        rebound.add(t.attr)
+    ctx.require(rebound, "no ListProxy method rebinds a container slot of its Parameter any more (R18.i has nothing to protect)")
+    ctx.extra["R18.i_rebound_slots"] = sorted(rebound)
+    for n, c in evs:
+        old_e, new_e = c.args[1], c.args[2]
+        stale = []
+        # names the new value is built from, followed through the assignments made after the yield
+        srcs, work = set(), [x.id for x in ast.walk(new_e) if isinstance(x, ast.Name)]
+        while work:
+            nm = work.pop()
+            if nm in srcs:
+                continue
+            srcs.add(nm)
+            for d in tcfg.live_nodes():
+                if d.kind == "stmt" and isinstance(d.ast, ast.Assign) and any(isinstance(t, ast.Name) and t.id == nm for t in d.ast.targets) and not any(tcfg.dominates(d, y) for y in ys):
+                    work.extend(x.id for x in ast.walk(d.ast.value) if isinstance(x, ast.Name))
+        for nm in srcs:
+            for d in tcfg.live_nodes():
+                if d.kind != "stmt" or not isinstance(d.ast, ast.Assign) or not any(tcfg.dominates(d, y) for y in ys):
+                    continue
+                for t in d.ast.targets:
+                    pairs = list(zip(t.elts, d.ast.value.elts)) if isinstance(t, (ast.Tuple, ast.List)) and isinstance(d.ast.value, (ast.Tuple, ast.List)) and len(t.elts) == len(d.ast.value.elts) else [(t, d.ast.value)]
+                    for tt, vv in pairs:
+                        if isinstance(tt, ast.Name) and tt.id == nm and any(isinstance(a, ast.Attribute) and a.attr in rebound for a in ast.walk(vv)):
+                            stale.append((nm, norm(vv), d))
+        # the old value must be a copy made before the yield
+        old_ok = False
+        if isinstance(old_e, ast.Name):
+            for d in tcfg.live_nodes():
+                if d.kind == "stmt" and isinstance(d.ast, ast.Assign) and any(isinstance(t, ast.Name) and t.id == old_e.id for t in d.ast.targets) and any(tcfg.dominates(d, y) for y in ys):
+                    copies = [k for k in ast.walk(d.ast.value) if isinstance(k, ast.Call) and norm(k.func) in ("dict", "list", "OrderedDict", "copy.copy", "copy")]
+                    bare = [a for a in ast.walk(d.ast.value) if isinstance(a, (ast.Attribute, ast.Name)) and (getattr(a, "attr", None) in MUTABLE_SLOTS)
+                            and not any(a in list(ast.walk(k)) for k in copies)]
+                    old_ok = bool(copies) and not bare
+        if stale:
+            nm, src, d = stale[0]
+            ctx.fail("R18.i", tg, n, "the new value of the `objects` event is built from `%s`, bound to `%s` before the mutation ran: a mutator that rebinds that container (pop by index "
+                                     "rebuilds names) is announced with the state before it -- unchanged old/new, so changes-only watchers are not notified at all" % (nm, src),
+                     key=tg.qualname + "::new-value-read-before-yield", input="Selector(objects={'a': 1, 'b': 2}); watch 'objects'; objects.pop(0) -> no notification")
+        elif not old_ok:
+            ctx.fail("R18.i", tg, n, "the old value of the `objects` event (`%s`) is not a copy taken before the mutation: old and new are the same mutated container" % norm(old_e),
+                     key=tg.qualname + "::old-value-not-a-copy")
+        else:
+            ctx.ok("R18.i", tg, n, "old = copy taken before the yield; new = `%s`, read after it" % norm(new_e))
